@@ -27,6 +27,9 @@ TEXTS = {
     # a byte-order mark is part of the text: both channels must hand the same characters to the library
     "bom": "\ufeff{\n  a = 1;\n  b = 2;\n}\n",
     "bom-noncanonical": "\ufeff{a=1;}\n",
+    # erroneous inputs that do not start with their first token
+    "erroneous-leading-newline": "\n{ a = ; }\n",
+    "erroneous-leading-space": " { a = 1; }}\n",
 }
 COMMANDS = [("test",), ("set", "a", "2"), ("set", "z", '"s"'), ("set", "a", "{"), ("set", "a..b", "1"), ("set", "@v", "3"),
             ("rm", "a"), ("rm", "zz"), ("rm", ""), ("set", "m.x", "[ 1 ]"), ("bogus",), ()]
@@ -38,8 +41,11 @@ def library(cmd, text):
     from nix_manipulator.cli.manipulations import remove_value, set_value
 
     if cmd and cmd[0] == "test":
+        from bounded import nixgen as G
+
         src = parse(text)
-        ok = (not src.contains_error) and src.rebuild() == text
+        # "free of syntax errors" is tree-sitter's verdict on the input, not the library's own flag
+        ok = (not G.parse_cst(text).has_error) and (not src.contains_error) and src.rebuild() == text
         return ("OK\n", 0) if ok else ("Fail\n", 1)
     if cmd and cmd[0] == "set" and len(cmd) == 3:
         try:
@@ -139,7 +145,7 @@ def run(tier, seed):
     t0 = time.time()
     items = [(t, c, ch) for t in TEXTS for c in COMMANDS for ch in ("stdin", "file")]
     if tier == "quick":
-        items = [it for i, it in enumerate(items) if it[2] == "file" or it[0] in ("canonical", "erroneous", "empty")]
+        items = [it for i, it in enumerate(items) if it[2] == "file" or it[0] in ("canonical", "erroneous", "empty", "erroneous-leading-newline")]
     with mp.get_context("fork").Pool(16) as pool:
         res = pool.map(eval_case, items, chunksize=2)
         hist = pool.apply(inprocess_history)
